@@ -15,6 +15,15 @@ wall = sys.argv[5] if len(sys.argv) > 5 else "30"
 workers = sys.argv[6] if len(sys.argv) > 6 else "8"
 only = set(sys.argv[7].split(",")) if len(sys.argv) > 7 else None
 check = os.path.join(here, "bin", "check")
+base_diff = os.environ.get("BASE_DIFF", "")  # applied to the scratch worktree before every mutant (mutants on top of proposed fixes)
+suffix = os.environ.get("MUTANT_SUFFIX", "")  # seeded_self/<ID>-<n><suffix>.diff
+
+
+def reset():
+    subprocess.run(["git", "-C", wt, "checkout", "-q", "--", "."], check=True)
+    if base_diff:
+        subprocess.run(["git", "-C", wt, "apply", base_diff], check=True)
+
 
 
 def run(args, repo):
@@ -25,11 +34,13 @@ def run(args, repo):
     return p.returncode, p.stdout + p.stderr
 
 
-for d in sorted(glob.glob(os.path.join(here, "seeded_self", prop + "-*.diff")), key=lambda x: int(re.findall(r"-(\d+)\.diff", x)[0])):
-    n = re.findall(r"-(\d+)\.diff", d)[0]
+for d in sorted(glob.glob(os.path.join(here, "seeded_self", prop + "-*" + suffix + ".diff")), key=lambda x: int(re.findall(r"-(\d+)[a-z]*\.diff", x)[0])):
+    if not re.search(r"-\d+" + suffix + r"\.diff$", d):
+        continue
+    n = re.findall(r"-(\d+)[a-z]*\.diff", d)[0]
     if only and n not in only:
         continue
-    subprocess.run(["git", "-C", wt, "checkout", "-q", "--", "."], check=True)
+    reset()
     a = subprocess.run(["git", "-C", wt, "apply", d], capture_output=True, text=True)
     if a.returncode != 0:
         print(f"{prop}-{n}: DIFF DOES NOT APPLY: {a.stderr.strip()}")
@@ -41,10 +52,10 @@ for d in sorted(glob.glob(os.path.join(here, "seeded_self", prop + "-*.diff")), 
     res = f"{prop}-{n}: exit {code} sigs={sigs}"
     if code == 1 and reps:
         c1, _ = run(["--replay", reps[0]], wt)
-        subprocess.run(["git", "-C", wt, "checkout", "-q", "--", "."], check=True)
-        c0, _ = run(["--replay", reps[0]], base)
+        reset()
+        c0, _ = run(["--replay", reps[0]], wt if base_diff else base)
         res += f" replay(mutant)={c1} replay(base)={c0}"
-        keep = os.path.join(here, "seeded_self", f"{prop}-{n}.replay.json")
+        keep = os.path.join(here, "seeded_self", f"{prop}-{n}{suffix}.replay.json")
         subprocess.run(["cp", reps[0], keep])
     elif code == 2:
         res += "\n" + out[-1500:]
